@@ -568,6 +568,29 @@ func convertRefsInV3SchemaRef(from *openapi3.SchemaRef) *openapi3.SchemaRef {
 	return &to
 }
 
+func fromV3AdditionalProperties(from openapi3.AdditionalProperties) openapi3.AdditionalProperties {
+	return openapi3.AdditionalProperties{
+		Has:    from.Has,
+		Schema: convertRefsInV2SchemaRef(from.Schema),
+	}
+}
+
+// convertRefsInV2SchemaRef is the inverse of convertRefsInV3SchemaRef: OpenAPI 2 keeps an
+// OpenAPI 3 schema inside additionalProperties, whose references must be OpenAPI 2 ones.
+func convertRefsInV2SchemaRef(from *openapi3.SchemaRef) *openapi3.SchemaRef {
+	if from == nil {
+		return nil
+	}
+	to := *from
+	to.Ref = FromV3Ref(to.Ref)
+	if to.Value != nil {
+		v := *from.Value
+		to.Value = &v
+		to.Value.AdditionalProperties = fromV3AdditionalProperties(to.Value.AdditionalProperties)
+	}
+	return &to
+}
+
 var ref2To3 = map[string]string{
 	"#/definitions/": "#/components/schemas/",
 	"#/responses/":   "#/components/responses/",
@@ -920,7 +943,7 @@ func FromV3SchemaRef(schema *openapi3.SchemaRef, components *openapi3.Components
 		MaxProps:             schema.Value.MaxProps,
 		Properties:           make(openapi2.Schemas),
 		AllOf:                make(openapi2.SchemaRefs, len(schema.Value.AllOf)),
-		AdditionalProperties: schema.Value.AdditionalProperties,
+		AdditionalProperties: fromV3AdditionalProperties(schema.Value.AdditionalProperties),
 	}
 
 	if v := schema.Value.Items; v != nil {
